@@ -1,63 +1,60 @@
-/- C16 — the second, step-boundary invariant (what the peer's close frame carried, and whether our own close
-frame had been sent when it arrived): definitions and log-extension lemmas. -/
+/- C16 — the second invariant (what the endpoint has read of the peer's close, for EVERY run, with or without
+asynchronous on_message calls): the observer `Spec.obs` on an extended history, log-extension lemmas, definitions. -/
 import TornadoModel.C16.Spec
 namespace TornadoModel.C16
 open Spec
 
-/-! ### `neverBlocked` and `peerOf` on an extended history -/
+/-! ### the observer on an extended history -/
 
-theorem neverBlocked_cons (e : Ev) (h : List Ev) :
-    neverBlocked (e :: h) = (!isAsyncDataOp e && neverBlocked h) := by
-  simp [neverBlocked, List.any_cons, Bool.not_or]
+@[simp] theorem obs_cons (e : Ev) (h : List Ev) : obs (e :: h) = (obs h).upd e := rfl
 
-theorem neverBlocked_append_false (l h : List Ev) (hn : neverBlocked h = false) : neverBlocked (l ++ h) = false := by
-  induction l with
-  | nil => exact hn
-  | cons e l ih => rw [List.cons_append, neverBlocked_cons, ih, Bool.and_false]
+theorem now_of_decided (o : Obs) (h : o.peer ≠ .undecided) : o.now = o.peer := by
+  unfold Obs.now
+  cases hp : o.peer with
+  | undecided => exact absurd hp h
+  | downFirst => rfl
+  | got c r w => rfl
 
-theorem peerOf_cons_of_ne (e : Ev) (h : List Ev) (hne : peerOf h ≠ .undecided) : peerOf (e :: h) = peerOf h := by
-  cases hp : peerOf h with
-  | undecided => exact absurd hp hne
-  | downFirst => simp [peerOf, hp]
-  | got c r w => simp [peerOf, hp]
+theorem now_decided_of_peer (o : Obs) (h : o.peer ≠ .undecided) : o.now ≠ .undecided := by
+  rw [now_of_decided o h]; exact h
 
-theorem peerOf_of_streamClosed (h : List Ev) (hs : h.any isStreamClosed = true) : peerOf h ≠ .undecided := by
+/-- once settled, the peer's close stays what it is -/
+theorem upd_peer_of_decided (o : Obs) (e : Ev) (h : o.peer ≠ .undecided) : (o.upd e).peer = o.peer := by
+  cases e with
+  | op x =>
+    cases x <;> simp only [Obs.upd] <;> (try split) <;> rfl
+  | onMessage =>
+    simp only [Obs.upd]
+    split <;> rfl
+  | streamClosed =>
+    simp only [Obs.upd, now_of_decided o h]
+  | _ => rfl
+
+/-- a transport teardown settles it -/
+theorem upd_streamClosed_decided (o : Obs) : (o.upd .streamClosed).peer ≠ .undecided := by
+  simp only [Obs.upd]
+  cases o.now <;> simp
+
+theorem obs_decided_of_streamClosed (h : List Ev) (hs : h.any isStreamClosed = true) : (obs h).peer ≠ .undecided := by
   induction h with
   | nil => simp at hs
   | cons e h ih =>
-    by_cases hu : peerOf h = .undecided
+    rw [obs_cons]
+    by_cases hd : (obs h).peer = .undecided
     · have hh : h.any isStreamClosed = false := by
         cases hx : h.any isStreamClosed with
         | false => rfl
-        | true => exact absurd hu (ih hx)
+        | true => exact absurd hd (ih hx)
       rw [List.any_cons, hh, Bool.or_false] at hs
       cases e <;> simp [isStreamClosed] at hs
-      simp [peerOf, hu]
-    · rw [peerOf_cons_of_ne _ _ hu]; exact hu
+      exact upd_streamClosed_decided _
+    · rw [upd_peer_of_decided _ _ hd]; exact hd
 
-/-! ### the clauses are vacuous once an asynchronous on_message has been started -/
-
-theorem forallH_append_of_blocked (P : Ev → List Ev → Bool)
-    (hP : ∀ e h, neverBlocked h = false → P e h = true) (l h : List Ev)
-    (hn : neverBlocked h = false) (hh : forallH P h = true) : forallH P (l ++ h) = true := by
-  induction l with
-  | nil => exact hh
-  | cons e l ih =>
-    rw [List.cons_append, forallH, ih, Bool.and_true]
-    exact hP _ _ (neverBlocked_append_false _ _ hn)
-
-theorem echoes_blocked (e : Ev) (h : List Ev) (hn : neverBlocked h = false) : echoesPeerCode e h = true := by
-  cases e <;> simp [echoesPeerCode, hn]
-
-theorem bothClosed_blocked (e : Ev) (h : List Ev) (hn : neverBlocked h = false) : bothClosedSendsClose e h = true := by
-  simp [bothClosedSendsClose, hn]
-
-theorem teardownBoth_blocked (e : Ev) (h : List Ev) (hn : neverBlocked h = false) : teardownBothClosed e h = true := by
-  simp [teardownBothClosed, hn]
-
-theorem notifyCarries_blocked (e : Ev) (h : List Ev) (hn : neverBlocked h = false) :
-    notifyCarriesPeerClose e h = true := by
-  cases e <;> simp [notifyCarriesPeerClose, hn]
+theorem peerOf_cons_of_decided (e : Ev) (h : List Ev) (hd : (obs h).peer ≠ .undecided) :
+    peerOf (e :: h) = peerOf h := by
+  unfold peerOf
+  rw [obs_cons, now_of_decided _ hd, now_of_decided _ (by rw [upd_peer_of_decided _ _ hd]; exact hd),
+    upd_peer_of_decided _ _ hd]
 
 /-! ### every helper only prepends events to the log -/
 
@@ -229,45 +226,69 @@ theorem ext_step (cfg : Cfg) (s : St) (o : Op) : Ext (emit (.op o) s) (step cfg 
 
 /-! ### the invariant -/
 
-/-- what the state must say about the peer's close once the receive loop has finished -/
+/-- the unread inbound frames that matter to the observer (messages and close frames, up to the peer's FIN) -/
+def proj : List In → List Pend
+  | [] => []
+  | .data a :: q => .msg a :: proj q
+  | .close p ok :: q => .close p ok :: proj q
+  | .eof :: _ => []
+  | .pong :: q => proj q
+  | .ping _ :: q => proj q
+
+theorem proj_append (q : List In) (i : In) (hq : ∀ x ∈ q, x ≠ In.eof) : proj (q ++ [i]) = proj q ++ proj [i] := by
+  induction q with
+  | nil => simp [proj]
+  | cons x q ih =>
+    have hx : x ≠ In.eof := hq x (by simp)
+    have ih' := ih (fun y hy => hq y (by simp [hy]))
+    cases x with
+    | eof => exact absurd rfl hx
+    | close p ok => simp [proj, ih']
+    | pong => simp [proj, ih']
+    | ping p => simp [proj, ih']
+    | data a => simp [proj, ih']
+
+/-- what the state must say about the peer's close once the transport is down -/
 def PeerOK (s : St) : Prop :=
   match peerOf s.log with
   | .undecided => False
   | .downFirst => s.code = none ∧ s.reason = none
   | .got c r wf => s.code = c ∧ s.reason = r ∧ (wf = true → s.log.any isClose = true)
 
-/-- the state at a step boundary, as long as no asynchronous on_message was ever started: nothing is in flight;
-while the receive loop is running nothing has been received about the peer's close, nothing is queued, and a
-terminated own side means our close frame is on the wire; once the loop has finished the protocol's
-`close_code/close_reason` are exactly what the peer's close frame carried -/
-structure Bnd (s : St) : Prop where
-  notBlocked : s.blocked = false
-  running : s.loopDone = false →
-    s.inq = [] ∧ s.peerGone = false ∧ peerOf s.log = .undecided ∧ s.code = none ∧ s.reason = none ∧
+/-- the link between the state (with `q` = the inbound frames the receive loop has not read yet) and what an observer
+reconstructs from the history, and the five clauses about the peer's close on the history so far.  It holds between
+any two frames the receive loop reads, not only at step boundaries. -/
+structure Link (q : List In) (s : St) : Prop where
+  blk : (obs s.log).inflight = s.blocked
+  gone : (obs s.log).gone = s.peerGone
+  noEof : s.peerGone = false → ∀ x ∈ q, x ≠ In.eof
+  live : s.sopen = true →
+    (obs s.log).pend = proj q ∧ (obs s.log).peer = .undecided ∧ s.code = none ∧ s.reason = none ∧
       (s.st = true → s.log.any isClose = true)
-  finished : s.loopDone = true → PeerOK s
-
-structure Inv2 (s : St) : Prop where
+  dead : s.sopen = false → PeerOK s
   g1 : forallH echoesPeerCode s.log = true
   g2 : forallH bothClosedSendsClose s.log = true
   g3 : forallH teardownBothClosed s.log = true
   g4 : forallH notifyCarriesPeerClose s.log = true
-  bnd : neverBlocked s.log = true → Bnd s
+  g5 : forallH notifyWhenDownB s.log = true
+
+/-- at a step boundary: the receive loop has read everything unless it is blocked or has finished -/
+def Bd (s : St) : Prop := s.blocked = false → s.loopDone = false → s.inq = []
+
+/-- the second invariant of a step-boundary state -/
+structure Inv2 (s : St) : Prop where
+  link : Link s.inq s
+  bd : Bd s
+
+theorem Inv2.g1 {s : St} (h : Inv2 s) : forallH echoesPeerCode s.log = true := h.link.g1
+theorem Inv2.g2 {s : St} (h : Inv2 s) : forallH bothClosedSendsClose s.log = true := h.link.g2
+theorem Inv2.g3 {s : St} (h : Inv2 s) : forallH teardownBothClosed s.log = true := h.link.g3
+theorem Inv2.g4 {s : St} (h : Inv2 s) : forallH notifyCarriesPeerClose s.log = true := h.link.g4
+theorem Inv2.g5 {s : St} (h : Inv2 s) : forallH notifyWhenDownB s.log = true := h.link.g5
 
 theorem inv2_init (cfg : Cfg) : Inv2 (init cfg) := by
-  constructor <;> simp [init, forallH]
-  intro _
-  constructor <;> simp [peerOf]
-
-/-- once an asynchronous on_message has been started the four clauses say nothing about later events -/
-theorem inv2_of_ext_blocked (s t : St) (h : Inv2 s) (hn : neverBlocked s.log = false) (he : Ext s t) : Inv2 t := by
-  obtain ⟨l, hl⟩ := he
-  have hn' : neverBlocked t.log = false := by rw [hl]; exact neverBlocked_append_false _ _ hn
-  constructor
-  · rw [hl]; exact forallH_append_of_blocked _ echoes_blocked _ _ hn h.g1
-  · rw [hl]; exact forallH_append_of_blocked _ bothClosed_blocked _ _ hn h.g2
-  · rw [hl]; exact forallH_append_of_blocked _ teardownBoth_blocked _ _ hn h.g3
-  · rw [hl]; exact forallH_append_of_blocked _ notifyCarries_blocked _ _ hn h.g4
-  · intro hx; rw [hn'] at hx; exact absurd hx (by simp)
+  refine ⟨?_, ?_⟩
+  · constructor <;> simp [init, forallH, obs, proj]
+  · intro _ _; rfl
 
 end TornadoModel.C16
